@@ -15,12 +15,13 @@ RULE = ("(a) form: allocate_code(n), n=0..8, called at once / after the welcome 
         "its list, independent of the other draws; (c) rejection: generated codes with spaces or a "
         "non-numeric nameplate must raise KeyFormatError and cause no command on the wire; (d) entry: "
         "random typed prefixes against random server nameplate lists through the input helper and "
-        "CodeInputter (bcft replaced by a direct call that pumps the simulator); (e) any sequence of "
+        "CodeInputter (bcft replaced by a direct call that pumps the simulator), with helper calls in the "
+        "wrong order at every stage (documented error expected, final code unchanged); (e) any sequence of "
         "the three code calls. Non-trivial/distinct = distinct (sub-workload, input) tuples.")
 ASSUMPTIONS = ["os.urandom itself is uniform (quality of the OS generator is out of scope)",
                "unicode decimal digits count as numeric (client and server both use \\d); only U+0020 is a space"]
-FLOORS = {"quick": {"entropy_draws_checked": 9000, "form_codes": 60, "rejections": 600, "completions_checked": 3000, "code_call_sequences": 100},
-          "thorough": {"entropy_draws_checked": 9000, "form_codes": 1500, "rejections": 60000, "completions_checked": 100000, "code_call_sequences": 3000}}
+FLOORS = {"quick": {"entropy_draws_checked": 9000, "form_codes": 60, "rejections": 600, "completions_checked": 3000, "code_call_sequences": 100, "out_of_order_helper_calls": 40},
+          "thorough": {"entropy_draws_checked": 9000, "form_codes": 1500, "rejections": 60000, "completions_checked": 100000, "code_call_sequences": 3000, "out_of_order_helper_calls": 1500}}
 NAMEPLATES = ["1", "7", "42", "999", "1000", "123456789", "007", "0", "00", "٣", "４２"]
 
 
@@ -318,9 +319,36 @@ def run_entry(spec):
             if not c.endswith("-") or c[:-1] not in server_nps:
                 viol.append({"key": "C19/entry/nameplate-completion-not-from-server", "msg": "offered %r, server has %s" % (c, sorted(server_nps)), "witness": wit})
     np_ = rng.choice(sorted(server_nps))
+    order_calls = [0]
+
+    def out_of_order(stage):
+        """helper calls in the wrong order must raise the documented error and change nothing"""
+        other = rng.choice([x for x in ["1", "2", "500", "77"] if x != np_])
+        table = {"before-nameplate": [("choose_words", lambda: helper.choose_words("a-b"), "MustChooseNameplateFirstError"),
+                                      ("get_word_completions", lambda: helper.get_word_completions("a"), "MustChooseNameplateFirstError")],
+                 "after-nameplate": [("choose_nameplate", lambda: helper.choose_nameplate(other), "AlreadyChoseNameplateError"),
+                                     ("get_nameplate_completions", lambda: helper.get_nameplate_completions("1"), "AlreadyChoseNameplateError"),
+                                     ("refresh_nameplates", lambda: helper.refresh_nameplates(), "AlreadyChoseNameplateError")],
+                 "after-words": [("choose_words", lambda: helper.choose_words("a-b"), "AlreadyChoseWordsError"),
+                                 ("choose_nameplate", lambda: helper.choose_nameplate(other), "AlreadyChoseNameplateError"),
+                                 ("get_word_completions", lambda: helper.get_word_completions("a"), "AlreadyChoseWordsError")]}
+        for (name, fn, want) in rng.sample(table[stage], rng.randint(0, 2)):
+            order_calls[0] += 1
+            try:
+                fn()
+                got = "no exception"
+            except Exception as e:
+                got = type(e).__name__
+            if got != want:
+                viol.append({"key": "C19/entry/out-of-order/%s-%s/%s" % (name, stage, got),
+                             "msg": "%s() %s: %s (documented: %s)" % (name, stage, got, want), "witness": wit})
     if not use_inputter:
+        out_of_order("before-nameplate")
         helper.choose_nameplate(np_)
+        if rng.random() < 0.5:
+            out_of_order("after-nameplate")        # before the wordlist is known
         sch.run(300, until=lambda: helper._input._wordlist is not None)
+        out_of_order("after-nameplate")
     # word phase
     chosen = None
     for _ in range(rng.randint(2, 8)):
@@ -360,14 +388,18 @@ def run_entry(spec):
             helper.choose_words(final[len(np_) + 1:])
     except Exception as e:
         viol.append({"key": "C19/entry/finish-raises/" + type(e).__name__, "msg": "%r: %r" % (final, e), "witness": wit})
+    if not use_inputter and rng.random() < 0.5:
+        out_of_order("after-words")
     sch.run(200, until=lambda: b.code is not None)
+    if not use_inputter:
+        out_of_order("after-words")
     if b.code != final:
         viol.append({"key": "C19/entry/code-differs-from-chosen", "msg": "chose %r, get_code gave %r" % (final, b.code), "witness": wit})
     for o in others + [b]:
         o.close()
     sch.drain(60.0, 6000, until=lambda: all(o.closed for o in others + [b]))
     world.finish()
-    return {"violations": viol, "nontrivial": ["entry", spec["seed"], final, use_inputter], "counters": {"completions_checked": checked},
+    return {"violations": viol, "nontrivial": ["entry", spec["seed"], final, use_inputter], "counters": {"completions_checked": checked, "out_of_order_helper_calls": order_calls[0]},
             "sample": {"kind": "entry", "server_nameplates": sorted(server_nps), "final_code": final, "via": wit["via"], "completions_checked": checked}}
 
 
